@@ -256,6 +256,29 @@ func pkgLLGoFiles(p *packages.Package) []string {
 			ret = append(ret, cFile)
 		}
 	}
+	// What the sources #include from their own directories is compiled into
+	// the archive as well.
+	seen := make(map[string]bool)
+	for _, cFile := range ret {
+		seen[cFile] = true
+	}
+	for _, cFile := range ret[:len(ret):len(ret)] {
+		cDir := filepath.Dir(cFile)
+		if seen[cDir] {
+			continue
+		}
+		seen[cDir] = true
+		entries, _ := os.ReadDir(cDir)
+		for _, e := range entries {
+			if strings.HasSuffix(e.Name(), ".go") {
+				continue // Go sources are inputs of their own
+			}
+			if sibling := filepath.Join(cDir, e.Name()); e.Type().IsRegular() && !seen[sibling] {
+				seen[sibling] = true
+				ret = append(ret, sibling)
+			}
+		}
+	}
 	return ret
 }
 
